@@ -54,7 +54,8 @@ func RunPath[S comparable](r *PathRule[S]) *PathResult[S] {
 		if !ok {
 			return nil
 		}
-		if ph, ok := ifi.Cond.(*ssa.Phi); ok && ph.Block() == b {
+		c, _ := condNeg(ifi.Cond) // `if !t` with t a boolean phi of this block
+		if ph, ok := c.(*ssa.Phi); ok && ph.Block() == b {
 			return ph
 		}
 		return nil
@@ -119,13 +120,14 @@ func RunPath[S comparable](r *PathRule[S]) *PathResult[S] {
 			only := -1 // successor forced by a constant incoming phi value
 			if ph := phiCond(it.b); ph != nil && it.pred >= 0 && it.pred < len(ph.Edges) {
 				eff := ph.Edges[it.pred]
+				_, negated := condNeg(ifi.Cond)
 				if cb, isConst := constBool(eff); isConst {
-					if cb {
+					if cb != negated {
 						only = 0
 					} else {
 						only = 1
 					}
-				} else {
+				} else if !negated {
 					cond = eff
 				}
 			}
